@@ -212,6 +212,8 @@ def run(tier):
     if scripts:
         chk.sample({"script": scripts[0]["id"], "cf": scripts[0]["cf"], "steps": scripts[0]["steps"][:14], "events": ev[1:12]})
     system_level(chk, sd, g2)
+    # unbounded complement (TLA+ proof system): the counting invariant for every number of callers / clients and every configuration
+    vlib.tlapm(chk, "LimiterProofs")
     # the composed request path (spec/System.tla): limiter ; breaker ; selection ; proxy ; counting
     import system_common, pool_common as _pc
     system_common.run(chk, sd, _pc.build_lbsim(sd), {"C09"}, plans=system_common.QUICK[:1] if tier != "thorough" else system_common.THOROUGH[:5])
